@@ -68,4 +68,18 @@ function clip (s, n = 200) {
   return s.length > n ? s.slice(0, n) + `…(+${s.length - n})` : s
 }
 
-module.exports = { VERIF, hashStr, Rng, chunk, clip }
+// line structure of a JavaScript text the way swc, V8 and acorn agree on it: LF, CRLF and lone CR end a line
+// (U+2028 / U+2029 are deliberately not handled here: swc's maps do not count them while V8 and acorn do,
+// callers skip texts that contain them raw)
+const EOL_RE = /\r\n|\r|\n/g
+function lineStarts (text) {
+  const out = [0]
+  EOL_RE.lastIndex = 0
+  let m
+  while ((m = EOL_RE.exec(text))) out.push(m.index + m[0].length)
+  return out
+}
+function splitLines (text) { return text.split(/\r\n|\r|\n/) }
+const hasRawLsPs = (text) => /[\u2028\u2029]/.test(text)
+
+module.exports = { VERIF, hashStr, Rng, chunk, clip, lineStarts, splitLines, hasRawLsPs }
